@@ -62,6 +62,10 @@ def _serpentine(n: int, length: int):
     return M.g_make(n, n, bits), [list(q) for q in order[:length]]
 
 
+def _keep_all(m, tag: str = "") -> bool:
+    return True
+
+
 def build_dataset(case: dict):
     from maze_dataset import MazeDataset, MazeDatasetConfig
 
@@ -78,6 +82,8 @@ def build_dataset(case: dict):
             ds = ds.filter_by.collect_generation_meta()
         elif mode == "stripped":
             ds = ds.filter_by.strip_generation_meta()
+        elif mode == "custom-filtered":
+            ds = ds.custom_maze_filter(_keep_all, tag="x")
         return ds
     n = case["n"]
     items = []
@@ -235,7 +241,7 @@ _SAFE_FILTERS = ["path_length", "truncate_count", "start_end_distance"]
 @st.composite
 def _gen_dataset(draw, n_hi, mazes_hi):
     spec = draw(G.dataset_spec(n_lo=2, n_hi=n_hi, mazes_lo=1, mazes_hi=mazes_hi, with_endpoint=False, filter_allow=_SAFE_FILTERS))
-    return {"src": "gen", "spec": spec, "meta": draw(st.sampled_from(["fresh", "fresh", "collected", "stripped"]))}
+    return {"src": "gen", "spec": spec, "meta": draw(st.sampled_from(["fresh", "fresh", "collected", "stripped", "custom-filtered"]))}
 
 
 @st.composite
